@@ -34,7 +34,7 @@ const (
 	// rest of the case is skipped and the case is emitted with hang = true - an observation
 	// the model cannot produce, so it is reported (and shrunk) like any other disagreement
 	watchdog     = 2 * time.Second
-	teardownWait = 500 * time.Millisecond
+	teardownWait = 300 * time.Millisecond
 	routeOfData  = "gate.h.m"
 )
 
@@ -723,7 +723,7 @@ func (w *world) teardown() (clean bool) {
 // hung: a watchdog expired or the case could not be torn down (time was lost on it).
 func Exec(ops []hx.T) (obs any, nontrivial bool, hung bool) {
 	for _, o := range ops {
-		if o.Name == "OTcp" {
+		if o.Name == "OTcp" || o.Name == "OBurst" {
 			startTcp() // the acceptor's own goroutines live for the whole process
 		}
 	}
